@@ -401,8 +401,14 @@ fn run_end_to_end(sc: &PairScenario) -> CaseResult {
     sim.record_stats = false;
     let step_us = sc.tail.as_ref().map(|t| t.step_us as u64).unwrap_or(10_000);
     let outcome = sim.run_tail_progress(step_us, STALL_US, CAP_US);
+    let talker = sim.chatter.clone();
+    let talking_stall = sim.chatter_stall_max_credit;
+    let chatted = sim.chatter_packets;
     let trace = sim.finish();
     let mut classes: Vec<&'static str> = vec!["end_to_end"];
+    if chatted > 0 {
+        classes.push("tail_with_talking_peer");
+    }
     if trace.max_frame_len > MAX_FRAME {
         return CaseResult::fail("oracle:c04:frame_too_long", format!("an endpoint emitted a frame of {} bytes", trace.max_frame_len));
     }
@@ -420,6 +426,25 @@ fn run_end_to_end(sc: &PairScenario) -> CaseResult {
                 if sub.mode == 3 && m.sub_delivered[sub.idx as usize].is_none() {
                     return CaseResult::fail("oracle:c04:e2e:reliable_lost", format!("Reliable submission {} ({} bytes) never delivered", sub.idx, sub.size));
                 }
+            }
+        }
+        if let TailOutcome::Stalled { since_us } = outcome {
+            // "arrives": on a fair network with both sides stepping a Reliable packet cannot stay away for 15 virtual
+            // minutes without anything moving. While the peer application keeps talking only the silent direction
+            // is judged, and only if it had send credit to spare (the low-credit shape is C02's finding D26, not a
+            // question of fragmentation).
+            let judged = match (talking_stall, talker.as_ref()) {
+                (Some(max_credit), Some(t)) => s != t.e as usize && max_credit >= 64,
+                _ => true,
+            };
+            if !judged {
+                classes.push("stall_not_judged_talking_peer_low_credit");
+            }
+            if let (true, Some(sub)) = (judged, trace.subs[s].iter().find(|sub| sub.mode == 3 && m.sub_delivered[sub.idx as usize].is_none())) {
+                return CaseResult::fail(
+                    if talking_stall.is_some() { "oracle:c04:e2e:reliable_never_arrives:talking_peer" } else { "oracle:c04:e2e:reliable_never_arrives" },
+                    format!("direction {}->{}: fair network since t={} us{}; nothing has moved since t={since_us} us (now {} us) and Reliable submission {} ({} bytes, {} fragments) has not arrived", s, 1 - s, trace.tail_start_us.unwrap_or(0), talker.as_ref().filter(|_| talking_stall.is_some()).map_or(String::new(), |t| format!(", endpoint {} keeps submitting one {}-byte packet every {} us", t.e, t.size, t.gap_us)), trace.end_us, sub.idx, sub.size, (sub.size as usize + FRAG - 1) / FRAG.max(1)),
+                );
             }
         }
         // a packet cut across flushes: its fragments appear in frames emitted at different times
@@ -451,7 +476,7 @@ impl Check for C04 {
     }
 
     fn strategy(&self, tier: Tier) -> BoxedStrategy<Case> {
-        let p = GenParams { max_ticks: tier.pick(100, 300), max_sends: 3, max_frags: tier.pick(8, 40), low_bandwidth: true, tail: true, modes: [1, 2, 2, 4], ..GenParams::default() };
+        let p = GenParams { max_ticks: tier.pick(100, 300), max_sends: 3, max_frags: tier.pick(8, 40), low_bandwidth: true, tail: true, chatter: true, modes: [1, 2, 2, 4], ..GenParams::default() };
         // a few cases per run carry one packet of up to the maximum size (65536 fragments, ~95 MB; seconds and
         // ~0.6 GB each, hence the low weight)
         prop_oneof![
@@ -475,7 +500,7 @@ impl Check for C04 {
     }
 
     fn rule(&self) -> String {
-        "two case kinds. Reassembly: 1-5 packets with boundary-biased sizes (0, 1, k*1448+{-1,0,+1}, uniform; a few cases per run with one packet of 20000..65536 fragments incl. exactly the maximum 65536*1448 bytes and its neighbours) are fragmented by a genuine sender HalfConnection; its datagrams are re-packed unmodified into data frames with fresh increasing frame ids in a generated order (permutation, repetition, interleaving across packets, repeats after completion, the rest in order or reversed) and handed to a receiver, with receive() called at generated points; fragments with the same packet id but a disagreeing header (last-fragment id, channel, window / channel parent lead) and different content are injected after the first genuine fragment of that packet. EndToEnd: SimPair with faults and bandwidth ceilings low enough to cut packets across flushes. Oracle: no emitted frame exceeds 1472 bytes; every delivery byte-identical to its submission; a packet whose every fragment arrived is delivered unless legitimately skipped (non-Reliable and some later packet was delivered, which lets the receive window move past it); forged fragments change nothing. Non-trivial = a multi-fragment packet whose fragments arrived out of order / repeated / interleaved (Reassembly), or a packet cut across flushes (EndToEnd).".into()
+        "two case kinds. Reassembly: 1-5 packets with boundary-biased sizes (0, 1, k*1448+{-1,0,+1}, uniform; a few cases per run with one packet of 20000..65536 fragments incl. exactly the maximum 65536*1448 bytes and its neighbours) are fragmented by a genuine sender HalfConnection; its datagrams are re-packed unmodified into data frames with fresh increasing frame ids in a generated order (permutation, repetition, interleaving across packets, repeats after completion, the rest in order or reversed) and handed to a receiver, with receive() called at generated points; fragments with the same packet id but a disagreeing header (last-fragment id, channel, window / channel parent lead) and different content are injected after the first genuine fragment of that packet. EndToEnd: SimPair with faults and bandwidth ceilings low enough to cut packets across flushes, followed by a fair phase during which, in about 4 of 10 scenarios, one application keeps submitting small packets until the other direction is done. Oracle: in the fair phase a Reliable packet does not stay away for 15 virtual minutes in which nothing moves (under a talking peer only the silent direction is judged and only if it had at least 64 bytes of send credit; the low-credit shape is finding D26 of C02); no emitted frame exceeds 1472 bytes; every delivery byte-identical to its submission; a packet whose every fragment arrived is delivered unless legitimately skipped (non-Reliable and some later packet was delivered, which lets the receive window move past it); forged fragments change nothing. Non-trivial = a multi-fragment packet whose fragments arrived out of order / repeated / interleaved (Reassembly), or a packet cut across flushes (EndToEnd).".into()
     }
 
     fn assumptions(&self) -> Vec<String> {
